@@ -1130,7 +1130,12 @@ def _eig_case(h, label, npar, family, N=None, sampler=None, which='unit', hyp=No
         ctx.hyps = [sym.tob(x) for x in hyp(list(sym.sym_array('p', (npar,))))]
         ctx.decide = Pruner(ctx, ctx.hyps, timeout_ms=prune_ms)
     cs = Case(h, fn, dict(p=ex), sampler=sampler, label=label, jit=False, ctx=ctx, validate=0)
-    _validate_eig(h, fn, cs.cj, sampler, label)
+    try:
+        _validate_eig(h, fn, cs.cj, sampler, label)
+    except jx.JXError as e:
+        # with a cut, the interpreted path runs the inner routine on the normalised member N while the real code runs it on whatever it scaled:
+        # a mismatch is a symptom of a broken normalisation, which the lemma queries below decide; recorded, and the queries still run
+        h.fact('translator_validation[%s]' % label, False, str(e)[:300], nontrivial=False)
     return cs
 
 
@@ -1175,6 +1180,18 @@ def _inf_norm(A):
     return sc
 
 
+def _exact_lemma(a, b, name, scale=1.0):
+    """an exact rational identity: Eq for the solver; in a float replay the two sides may differ only by rounding (1e-12 relative to the
+    magnitudes), not by the 1e-9 the generic Eq atom grants - a normalisation that is off by a relative 1e-10 must reproduce"""
+    fa, fb = sym.flat(a), sym.flat(b)
+    if any(sym.isz(x) for x in fa + fb) or sym.isz(scale):
+        return Eq(a, b, name=name, scale=scale)
+    if len(fb) == 1 and len(fa) > 1:
+        fb = fb * len(fa)
+    ok = all(abs(float(x) - float(y)) <= 1e-12 * (abs(float(scale)) + abs(float(x)) + abs(float(y))) for x, y in zip(fa, fb))
+    return Holds(ok, name=name)
+
+
 def _eig_atoms(i, o, Nspec=None, per_entry=False, normalised=False):
     lam, V, A, scaled = list(o[0]), M(o[1]), M(o[2]), M(o[3])
     sc = _inf_norm(A)
@@ -1182,7 +1199,7 @@ def _eig_atoms(i, o, Nspec=None, per_entry=False, normalised=False):
     G = mm(mT(V), V)
     ats = []
     if Nspec is not None:
-        ats.append(Eq(fl(scaled), fl(Nspec(list(i['p']))), name='normalised_member_lemma'))
+        ats.append(_exact_lemma(fl(scaled), fl(Nspec(list(i['p']))), 'normalised_member_lemma'))
     tol_r = v_mul(EIG_TOL, sc)
     if per_entry:
         # R = V diag(lam) V^T and G = V^T V are symmetric by construction: upper triangles, one query per entry
@@ -1193,8 +1210,8 @@ def _eig_atoms(i, o, Nspec=None, per_entry=False, normalised=False):
             lin = list(o[4])
             Nn = Nspec(list(i['p']))
             Rn = mm(mm(V, mdiag(lin)), mT(V))
-            ats.append(Eq(lam, [v_mul(sc, x) for x in lin], name='eigenvalues_are_norm_times_inner_lemma', scale=sc))
-            ats.append(Eq(fl(A), fl(mscale(sc, Nn)), name='A_is_norm_times_normalised_member_lemma', scale=sc))
+            ats.append(_exact_lemma(lam, [v_mul(sc, x) for x in lin], 'eigenvalues_are_norm_times_inner_lemma', scale=sc))
+            ats.append(_exact_lemma(fl(A), fl(mscale(sc, Nn)), 'A_is_norm_times_normalised_member_lemma', scale=sc))
             ats += [Le(v_abs(v_sub(Rn[a][b], Nn[a][b])), EIG_TOL, name='reconstructs_normalised[%d%d]' % (a, b), scale=1.0) for a, b in ut]
         else:
             ats += [Le(v_abs(v_sub(R[a][b], A[a][b])), tol_r, name='reconstructs[%d%d]' % (a, b), scale=sc) for a, b in ut]
